@@ -106,6 +106,10 @@ def points(tier: str) -> List[dict]:
     for n in (5, 6) + ((7,) if th else ()):
         P.append({"spec": {"model": "qg5", "n": n, "sym": False, "cfg": {"var_h": 1}, "keep_solutions": True}, "count": None, "fix_var_h": 1,
                   "superset_of": {"model": "qg5", "n": n, "sym": True, "cfg": {"var_h": 1}, "keep_solutions": True}})
+    for n in (3, 4, 5):
+        P.append({"spec": {"model": "quasigroup", "n": n, "sym": False, "brute": True, "keep_solutions": True}, "count": "brute",
+                  "superset_of": {"model": "quasigroup", "n": n, "sym": True, "keep_solutions": True}})
+        P.append({"spec": {"model": "quasigroup", "n": n, "sym": True, "brute": True}, "sat": "brute"})
     P.append({"spec": {"model": "magic_square", "n": 3, "sym": False}, "count": 8})
     P.append({"spec": {"model": "magic_square", "n": 3, "sym": True}, "count": 1})
     P.append({"spec": {"model": "magic_square", "n": 4, "sym": True}, "count": 880})
